@@ -28,9 +28,9 @@ CLAIMS = {
         "technique": "Lean 4 theorem (build_trie mirror = specification, induction) + root differential against the executed Lean specification",
     },
     "C05": {
-        "text": "T5.1 completeness and T5.2 truthfulness of the specified path proof proveSpec for every canonical set and every key (present/absent, any divergence depth), kernel-checked; Session::prove of the real store must return exactly proveSpec's terminal and siblings (byte-for-byte) for generated query keys on plain and overlay sessions, cold and warm, and verify + confirm with the real verifier.",
+        "text": "T5.1 completeness and T5.2 truthfulness of the specified path proof proveSpec for every canonical set and every key (present/absent, any divergence depth), kernel-checked; T5.5 (bitbox): the mirrored ProbeSequence / lookup / allocate_bucket / tombstone functions are total within 2n+2 steps (period of the triangular sequence), a lookup answers exactly 'stored at b' / 'stored nowhere' in every table reachable from empty by inserts and removes, stale tombstone labels are never found; Session::prove of the real store must return exactly proveSpec's terminal and siblings (byte-for-byte) for generated query keys on plain and overlay sessions, cold and warm, and verify + confirm with the real verifier.",
         "design_ref": "§4 C05",
-        "note": "Trusted: Lean kernel; Hasher.Sound; seek / bitbox probing not modelled (tied by proof equality); T5.3/T5.5 are stretch.",
+        "note": "Trusted: Lean kernel; Hasher.Sound; seek not modelled (tied by proof equality); bitbox probing IS modelled (T5.5 family) but tied to the code only through wfTable / probeReaches on real files and the extracted constants, not by a step-by-step differential.",
         "technique": "Lean 4 theorem (specified proof verifies and is truthful, for all sets and keys) + exact proof-object differential",
     },
     "C09": {
@@ -52,19 +52,19 @@ CLAIMS = {
         "technique": "Lean 4 theorem (rejected/deferred commit = identity on the state) + competing-changeset history differential",
     },
     "C03": {
-        "text": "T3.1 (kernel-checked): in the abstract disk model every process-crash image of every prefix of a sync trace satisfying the order/placement clauses recovers to exactly the old or exactly the new abstract state, and to the new one once the trace is complete (corollary of C04's theorem). On the real code every operation chosen from generated histories is crashed (process exit) at EVERY I/O event index, including nested crashes at every event of recovery; the reopened directory must show exactly the pre- or post-state (values, root, seqn, proofs from the same side; post once the call returned) and accept a follow-up commit with the reference root.",
+        "text": "T3.1 (kernel-checked): in the abstract disk model every process-crash image of every prefix of a sync trace satisfying the order/placement clauses recovers to exactly the old or exactly the new abstract state, and to the new one once the trace is complete (corollary of C04's theorem); T3.1b the same jointly for values, merkle pages AND the rollback log's live records; T3.2 / T3.2b recovery (WAL redo with table fsync, WAL truncation, log trimming) is idempotent under crashes at every prefix and any nesting depth; T3.2c/d the order the code had before repair F17 (no table fsync) is crash-idempotent but kernel-checked NOT power-loss-idempotent. On the real code every operation chosen from generated histories is crashed (process exit) at EVERY I/O event index, including nested crashes at every event of recovery; the reopened directory must show exactly the pre- or post-state (values, root, seqn, proofs from the same side; post once the call returned) and accept a follow-up commit with the reference root.",
         "design_ref": "§4 C03/C04/C17",
-        "note": "Trusted: Lean kernel; disk semantics of the model; the trace predicate is not yet evaluated on real traces by the Lean driver (the real code is crashed instead); rollback-log component of the recovery abstraction omitted in the theorem (covered by the enumeration).",
+        "note": "Trusted: Lean kernel; disk semantics of the model; the trace predicate is not yet evaluated on real traces by the Lean driver (the real code is crashed instead); the rollback log is one atomic record list in the model (segments, torn appends and roll-over are covered by the enumeration only).",
         "technique": "Lean 4 theorem (phase invariants over every trace prefix) + exhaustive crash-point enumeration of the real code in child processes",
     },
     "C04": {
-        "text": "T4.1 (kernel-checked): for every accepted sync trace, every prefix and EVERY sub-list of the not-yet-fsynced effects kept, recovery yields the old or the new state; the new state after the full trace. On the real code a journal of before-images of un-fsynced effects (kept by the harness side of the I/O hook) lets a child revert all / random / each single un-synced effect at every event index before dying; the reopened store must be exactly pre or post.",
+        "text": "T4.1 (kernel-checked): for every accepted sync trace, every prefix and EVERY sub-list of the not-yet-fsynced effects kept, recovery yields the old or the new state; the new state after the full trace. T4.2: the same with the rollback log as a third component (appends beyond the live range and pruning outside it are invisible; the old / new disjunction is joint), T4.2c also from a start state with an un-fsynced WAL truncation pending. On the real code a journal of before-images of un-fsynced effects (kept by the harness side of the I/O hook) lets a child revert all / random / each single un-synced effect at every event index before dying; the reopened store must be exactly pre or post; nested-power: after a process crash at every event, a power loss at every event of the recovery. Found and repaired F17 (recovery dropped the WAL without fsyncing the re-applied table pages).",
         "design_ref": "§4 C03/C04/C17",
         "note": "Trusted: Lean kernel; page atomicity; fsync makes exactly the file's completed prior effects durable (hook journal rule); tmpfs instead of a block device.",
         "technique": "Lean 4 theorem (all loss subsets x all prefixes) + power-loss image enumeration on the real code via the I/O hook journal",
     },
     "C14": {
-        "text": "T14.1-T14.3 on the poison layer of the API model (a faulted commit returns err and poisons; a poisoned handle refuses everything unchanged; transparent without fault) and T14.4 (disk model: a sync cut short by a failure leaves pre or post). On the real code every I/O event of chosen operations is made to fail (EIO once / persistently): the call must report the error, the handle must be poisoned, reopening must show pre or post. Re-found and repaired F2 (write_ht swallowed write errors) and F8 (rollback-log append failure left an unpoisoned handle with an advanced root).",
+        "text": "T14.1-T14.3 on the poison layer of the API model (a faulted commit returns err and poisons; a poisoned handle refuses everything unchanged; transparent without fault) and T14.4 / T14.4b (disk model: a sync cut short by a failure leaves pre or post, jointly with the rollback log). On the real code every I/O event of chosen operations is made to fail (EIO once / persistently): the call must report the error, the handle must be poisoned, reopening must show pre or post. Re-found and repaired F2 (write_ht swallowed write errors) and F8 (rollback-log append failure left an unpoisoned handle with an advanced root).",
         "design_ref": "§4 C14",
         "note": "Trusted: Lean kernel; fault model = EIO at the hooked operation (a failing write is not performed; a failing fsync is performed but reported failed).",
         "technique": "Lean 4 theorems (poison protocol + atomicity of a cut-short sync) + fault injection at every I/O event of the real code",
@@ -76,21 +76,21 @@ CLAIMS = {
         "technique": "Lean 4 theorems on the reopen transition of the API model + reopen-at-random-position history differential",
     },
     "C13": {
-        "text": "The specification model has no configuration parameter (roots, values, proofs, verdicts are functions of the history alone); T13.1 proves by kernel evaluation of the full table that for every shard/worker count 1..64 shard_regions partitions the 64 root children and shard_index_for names the owning region. Real histories are executed under a matrix of configurations and every observable must be identical and equal to the model.",
+        "text": "The specification model has no configuration parameter (roots, values, proofs, verdicts are functions of the history alone); T13.1 proves by kernel evaluation of the full table that for every shard/worker count 1..64 shard_regions partitions the 64 root children and shard_index_for names the owning region; NUM_CHILDREN = 2^DEPTH = 64 = MAX_COMMIT_CONCURRENCY with the values extracted from the source. Real histories are executed under a matrix of configurations and every observable must be identical and equal to the model.",
         "design_ref": "§4 C13",
         "note": "Trusted: Lean kernel (decide +kernel on a finite table); schedules of the real worker threads are sampled, not quantified; sha2 not exercised.",
         "technique": "Lean 4 theorem (finite table, decide +kernel) + configuration-matrix differential of identical histories",
     },
     "C06": {
-        "text": "witnessSpec (Lean) is the specified witness; T6.1/T6.2: every path it contains verifies against the base root and attests exactly the session's view for its key (all sets, all keys); T6.3: replaying witnessed writes through verify_update over any checked set of verified paths yields the root of the updated set (from the fully proved T8.3). The real witness of generated sessions (1..64 workers, overlays, mixed batches) must equal witnessSpec in canonical form and is verified / replayed with the real verifier. Re-found and repaired F3 (operations attached to the wrong paths with more than one worker).",
+        "text": "witnessSpec (Lean) is the specified witness; T6.1/T6.2: every path it contains verifies against the base root and attests exactly the session's view for its key (all sets, all keys); T6.3: replaying witnessed writes through verify_update over any checked set of verified paths yields the root of the updated set (from the fully proved T8.3); T6.5/T6.5b: for every key length the witness paths are strictly ascending, each group's keys are in scope of one verified path that confirms every attested read, and reads / writes are partitioned exactly; T6.6 the witness passes verify_update's checks; T6.7 its replay IS the root of the updated set (no hypothesis left on the witness). The real witness of generated sessions (1..64 workers, overlays, mixed batches) must equal witnessSpec in canonical form and is verified / replayed with the real verifier. Re-found and repaired F3 (operations attached to the wrong paths with more than one worker).",
         "design_ref": "§4 C06",
-        "note": "Trusted: Lean kernel; Hasher.Sound; the structural lemma that witnessSpec's grouped paths pass checkPaths is not yet a theorem (held by the differential + replay oracle); worker/page_walker sibling patching is not modelled.",
+        "note": "Trusted: Lean kernel; Hasher.Sound; worker/page_walker sibling patching is not modelled (tied by witness equality).",
         "technique": "Lean 4 theorems (specified proofs verify/attest; update replay = new root) + canonical witness equality differential + real-verifier replay oracle",
     },
     "C19": {
-        "text": "Ownership monitor defined in Lean (wfDetail / claim): every page of ln and bbn below the allocation frontier is claimed for exactly one role (leaf, branch, overflow page, free-list page, free page); T19 theorems: a successful claim is the first claim of an in-range page, a claimed page can never be claimed again (so an accepted image has no page both free and in use or used twice). The monitor runs on real directories after every commit / rollback / reopen of generated histories and counts unclaimed (leaked) pages, which must be 0; the API's reported occupancy must equal the full buckets found by the decoder and the pages the specification requires; identical fill/empty cycles must not move the frontier after cycle 4. Re-found and repaired F10 (overflow pages leaked by LeafUpdater::keep_up_to).",
+        "text": "Ownership monitor defined in Lean (wfDetail / claim): every page of ln and bbn below the allocation frontier is claimed for exactly one role (leaf, branch, overflow page, free-list page, free page); T19 theorems: a successful claim is the first claim of an in-range page, a claimed page can never be claimed again (so an accepted image has no page both free and in use or used twice). Free-list / allocator model (mirror of pop, discard, preallocate, push_and_encode, commit, allocate, finish): T19.1 allocate hands out only pages free at the start of the sync or beyond the frontier; T19.2 tracked and live pages partition [1,bump) before and after every sync (iterable); T19.3 the frontier moves only when the old list was exhausted. Bitbox table model: occupancy counter = number of stored pages (T19_occupied_is_stored_pages); meta-byte constants extracted from the source are pairwise distinct. The monitor runs on real directories after every commit / rollback / reopen of generated histories and counts unclaimed (leaked) pages, which must be 0; the API's reported occupancy must equal the full buckets found by the decoder and the pages the specification requires; identical fill/empty cycles must not move the frontier after cycle 4. Re-found and repaired F10 (overflow pages leaked by LeafUpdater::keep_up_to).",
         "design_ref": "§4 C19",
-        "note": "Trusted: Lean kernel; decoders hand-written from the layouts (tied by the image run on real directories); T19.2 conservation law of the free-list model itself is a stretch item.",
+        "note": "Trusted: Lean kernel; decoders hand-written from the layouts (tied by the image run on real directories); the free-list theorems T19.1-T19.3 are conditional on the modelled commit not reaching a panic site (finish = some), which is kernel-checked exhaustively only for capacities 2-4 (T19.4, decide +kernel); get_nth_pop index arithmetic modelled by its specification.",
         "technique": "Lean 4 theorems on the page-ownership monitor + the monitor evaluated by the Lean driver on real directory images + frontier cycles",
     },
     "C07": {
@@ -106,9 +106,9 @@ CLAIMS = {
         "technique": "Lean 4 theorems (invariant over all interleavings of the lock protocol) + thread/process races, directory fingerprints and strace on the real code",
     },
     "C17": {
-        "text": "checkPlacement (Lean) decides, from the independently decoded pre-image and the ordered I/O events of an operation, that nothing the previous state references is overwritten, truncated or unlinked before the meta page is written. T17.1/T17.1b: an accepted ln / bbn page write targets a page beyond the old frontier or one the old state does not use as node / overflow / free-list page; T17.2 any hash-table write before the switch-over is rejected; T17.3 any unlink is rejected. This is the page-write clause of the hypothesis of the crash theorem (C04 EvPre) decided on real traces. The monitor runs on the pre-image + trace of every operation of generated histories.",
+        "text": "checkPlacement (Lean) decides, from the independently decoded pre-image and the ordered I/O events of an operation, that nothing the previous state references is overwritten, truncated or unlinked before the meta page is written. T17.1/T17.1b: an accepted ln / bbn page write targets a page beyond the old frontier or one the old state does not use as node / overflow / free-list page; T17.2 any hash-table write before the switch-over is rejected; T17.3 any unlink is rejected; T17.4 every event the monitor accepts abstracts to an effect satisfying EvPre / AllowedPre of the abstract disk model. This is the page-write clause of the hypothesis of the crash theorem (C04 EvPre) decided on real traces. The monitor runs on the pre-image + trace of every operation of generated histories.",
         "design_ref": "§4 C03/C04/C17",
-        "note": "Trusted: Lean kernel; decoders hand-written (validated by C16's run); the hook's completeness (every mutating call site instrumented); the formal link 'monitor acceptance implies EvPre of the abstract disk model' is stated in prose, not yet as a Lean theorem.",
+        "note": "Trusted: Lean kernel; decoders hand-written (validated by C16's run); the hook's completeness (every mutating call site instrumented); T17.4 links monitor acceptance to the page-write clause EvPre of the crash theorem; the WAL-seqn, log-append and flush clauses need contents / completion order the trace does not carry and are covered by the crash enumeration.",
         "technique": "Lean 4 theorems (soundness of the placement monitor) + the monitor evaluated by the Lean driver on real pre-images and real I/O traces",
     },
     "C15": {
@@ -118,7 +118,7 @@ CLAIMS = {
         "technique": "Lean 4 theorems (invariant over all interleavings of the lock-protocol LTS) + threaded stress with stamp / winner-chain oracles under a watchdog",
     },
     "C16": {
-        "text": "Byte-level decoders of every on-disk format written in Lean from the layouts, independent of nomt's read path (meta, leaf, branch with prefix compression, overflow cells/pages, free lists, hash-table meta bytes and buckets with seeded XXH3-64 probe positions, merkle pages and labels, WAL, rollback segments), plus wfImage / wfTable / checkMerkle. Kernel-checked: decoder/encoder round trips (meta, overflow cell, free-list page, record header); T16.1 an accepted image's abstraction has strictly increasing keys, no key twice, every key in exactly one leaf; T16.lookup routing by separators + leaf search = lookup in the abstraction (T1.6). The Lean driver decodes the REAL directory after every commit / rollback / reopen of generated histories and requires: well-formed, abstraction = committed map (value length + Blake3 of every value), every reachable node of every stored merkle page = nodeAt, elision rule, table well-formed. Found F13/F14 (branch separators corrupted by mis-sized bitwise_memcpy sources: committed keys read back absent / commit panic), both repaired.",
+        "text": "Byte-level decoders of every on-disk format written in Lean from the layouts, independent of nomt's read path (meta, leaf, branch with prefix compression, overflow cells/pages, free lists, hash-table meta bytes and buckets with seeded XXH3-64 probe positions, merkle pages and labels, WAL, rollback segments), plus wfImage / wfTable / checkMerkle. Kernel-checked: decoder/encoder round trips (meta, overflow cell, free-list page, record header); T16.1 an accepted image's abstraction has strictly increasing keys, no key twice, every key in exactly one leaf; T16.const: the layout constants the decoders use ARE the ones extracted from the Rust sources on every run (tools/gen_constants.py -> Generated/Constants.lean), the manifest fields tile [0,64) at the offsets encode_to writes, an overflow cell fits a leaf, the last page level is always elided; T16.lookup routing by separators + leaf search = lookup in the abstraction (T1.6). The Lean driver decodes the REAL directory after every commit / rollback / reopen of generated histories and requires: well-formed, abstraction = committed map (value length + Blake3 of every value), every reachable node of every stored merkle page = nodeAt, elision rule, table well-formed. Found F13/F14 (branch separators corrupted by mis-sized bitwise_memcpy sources: committed keys read back absent / commit panic), both repaired.",
         "design_ref": "§4 C16",
         "note": "Trusted: Lean kernel; decoders are hand-written (tied by decoding real directories); leaf/branch encoder round trips and the ownership walk as a whole are not theorems; crash images are covered by C03/C04 through the API, not by the decoder.",
         "technique": "Lean 4 theorems on the image decoder (sortedness, single-leaf, lookup = abstraction, codec round trips) + the decoder/monitor evaluated by the Lean driver on real directories",
